@@ -39,16 +39,16 @@ PROPS = ["C31Step", "OnlyOwnTriples"]
 
 
 def parse_candidate(trace_text):
+    """TLC error trace -> (scenario, [(op, n, v)]).  TLC wraps long records over several lines."""
     sc = None
+    m = re.search(r"/\\ sc = (\d+)", trace_text)
+    if m:
+        sc = int(m.group(1))
     ops = []
-    for line in trace_text.splitlines():
-        m = re.match(r"^/\\ sc = (\d+)", line.strip())
-        if m:
-            sc = int(m.group(1))
-        if "last = [" in line:
-            f = dict((m.group(1), m.group(2).strip('"')) for m in re.finditer(r'(\w+) \|-> ("[^"]*"|\w+)', line))
-            if f.get("op") and f["op"] != "init":
-                ops.append((f["op"], f["n"], int(f["v"])))
+    for m in re.finditer(r"last =\s*\[(.*?)\]", trace_text, re.S):
+        f = dict((x.group(1), x.group(2).strip('"')) for x in re.finditer(r'(\w+) \|-> ("[^"]*"|\w+)', m.group(1)))
+        if f.get("op") and f["op"] != "init":
+            ops.append((f["op"], f["n"], int(f["v"])))
     return sc, ops
 
 
@@ -69,7 +69,7 @@ def step_of(what):
     return int(m.group(1)) if m else None
 
 
-def run(ctx):
+def _run(ctx):
     import vlib
     thorough = ctx.thorough
     rng = random.Random(ctx.seed)
@@ -78,7 +78,8 @@ def run(ctx):
     names2, names3 = ["n1", "N1"], ["n1", "N1", "n10"]
     cov = ctx.cov
     ctx.assumptions += [
-        "reload = ReloadNamespacePrepare immediately followed by ReloadNamespaceCommit of the same namespace (C31 covers other orders)",
+        "reload = ReloadNamespacePrepare followed by ReloadNamespaceCommit of the same namespace with nothing in between except "
+        "submissions the proxy rejects (failing prepares of any namespace); C31 covers other orders",
         "a pair (user, password) belongs to at most one namespace at a time (the control plane's uniqueness rule): a configuration is "
         "submitted only when its pairs are free; pairs may move to another namespace after their owner dropped them or was deleted; "
         "user names are shared between namespaces; every configuration passes models.Namespace.Verify",
@@ -101,7 +102,7 @@ def run(ctx):
     nsc = len(table["scenarios"])
     r1 = R.mc(ctx, names2, nv, table, empty(names2), True, False, INVS_ABS + ["CodeUsersRefine"], PROPS,
               "abstract and code-shaped (pair-keyed) user directory of the double buffer vs reference triples, %d credential "
-              "scenarios" % nsc, allow_violation=True, exact_keys=True)
+              "scenarios" % nsc, allow_violation=True, exact_keys=True, with_bad=True)
     candidate = None
     if r1.violated:
         sc, ops = parse_candidate(r1.trace_text)
@@ -113,7 +114,7 @@ def run(ctx):
     if thorough:
         core3 = {"scenarios": {str(i + 1): sc for i, sc in enumerate(R.core_scenarios(names3))}, "extra": []}
         r3 = R.mc(ctx, names3, nv, core3, empty(names3), True, False, INVS_ABS + ["CodeUsersRefine"], PROPS,
-                  "the same with 3 namespaces, hand-picked scenarios", exact_keys=True)
+                  "the same with 3 namespaces, hand-picked scenarios", exact_keys=True, with_bad=True)
         rh = R.mc(ctx, names2, nv, table, empty(names2), True, False, ["TypeOK", "CodeUsersRefine"], [],
                   "for the record: the directory as it was before fix f8962a4 (keys joined with ':' and split again)",
                   allow_violation=True)
@@ -121,10 +122,10 @@ def run(ctx):
         cov["model_checking"]["joined_key_model_before_fix"] = {"violated": rh.violated, "distinct": rh.distinct}
 
     # ------------------------------------------------------------------ 2. G
-    plans = [dict(names=names2, len=4, nrandom=3)]
+    plans = [dict(names=names2, len=3, nrandom=3)]
     sims = []
     if thorough:
-        plans = [dict(names=names2, len=5, nrandom=8), dict(names=names3, len=3, nrandom=6)]
+        plans = [dict(names=names2, len=4, nrandom=8), dict(names=names3, len=3, nrandom=4)]
         sims = [dict(names=names3, len=8, num=1500, nrandom=12)]
     known = [k for k in vlib.load_known("C29") if isinstance(k.get("case"), dict)]
     nontriv = 0
@@ -139,7 +140,7 @@ def run(ctx):
         label = ("simulate %d operations" if sim else "all behaviours of %d operations") % p["len"] + \
             ", %d namespaces, %d scenarios" % (len(names), len(tb["scenarios"]))
         kw = dict(mode="sim", sim="num=%d" % p["num"], depth=2 * p["len"] + 1, seed=rng.randrange(1, 2 ** 31)) if sim else {}
-        path, n, _ = R.generate(ctx, names, nv, tb, empty(names), True, p["len"], True, label, exact_keys=True, **kw)
+        path, n, _ = R.generate(ctx, names, nv, tb, empty(names), True, p["len"], True, label, exact_keys=True, with_bad=True, **kw)
         cand_at = None
         sab = None
         with open(path) as f:
@@ -151,7 +152,8 @@ def run(ctx):
                     k = len(candidate["ops"])
                     if len(c["steps"]) >= k and all(tuple(c["steps"][j][:3]) == candidate["ops"][j] for j in range(k)):
                         cand_at = dict(c, steps=c["steps"][:k])
-                if first and sab is None and str(c["sc"]) == control and c["steps"][0][:3] == ["prepare", "n1", 1]:
+                if first and sab is None and str(c["sc"]) == control and c["steps"][0][:3] == ["prepare", "n1", 1] and \
+                        c["steps"][1][0] == "commit":
                     sab = dict(c, steps=c["steps"][:2], sabotage="n1/1")
         if first:
             ctx.sample({"scenario_1": tb["scenarios"]["1"], "behaviour": json.loads(open(path).readline())})
@@ -238,7 +240,7 @@ def run(ctx):
         first = False
 
     cov["distinct_nontrivial"] = nontriv
-    cov["rule"] = ("behaviours = sequences of reload(n, configuration)/delete(n) enumerated by TLC per credential scenario (all of a "
+    cov["rule"] = ("behaviours = sequences of reload(n, configuration) / rejected submission(n) / delete(n) enumerated by TLC per credential scenario (all of a "
                    "bounded length, plus seeded simulation in the thorough tier); non-trivial = two different namespaces are loaded and "
                    "at least one loaded credential contains ':'")
     cov["behaviours_replayed"] = total
@@ -265,3 +267,16 @@ def report(ctx, res, sig_count, names, nv):
                 for v in ctx.violations:
                     if v["sig"] == sig:
                         v["count"] += n - 1
+
+
+def run(ctx):
+    """A violation already observed on the real code stands even when a later stage cannot be completed (e.g. the driver of
+    the next stage dies on the same defect): the later failure is recorded as a note instead of turning the verdict into
+    INCONCLUSIVE."""
+    import vlib
+    try:
+        _run(ctx)
+    except vlib.Inconclusive as e:
+        if not ctx.violations:
+            raise
+        ctx.notes.append("a later stage was inconclusive after violations had been observed: %s" % str(e)[:600])
